@@ -452,10 +452,13 @@ fn actions_for(call: Call) -> Vec<Action> {
         Call::Stat => vec![Action::Errno(libc::EIO), Action::StatLie(true), Action::StatLie(false), Action::Errno(libc::EACCES)],
         Call::Mkdir => vec![Action::Errno(libc::EACCES), Action::Errno(libc::ENOSPC), Action::Errno(libc::EEXIST)],
         Call::Close => vec![],
+        Call::Rename => vec![Action::Errno(libc::EIO), Action::Errno(libc::EACCES), Action::Errno(libc::ENOSPC)],
+        Call::Unlink => vec![Action::Errno(libc::EIO), Action::Errno(libc::EACCES)],
+        Call::Sync => vec![Action::Errno(libc::EIO), Action::Errno(libc::ENOSPC)],
     }
 }
 
-const CALLS: [Call; 7] = [Call::Open, Call::Read, Call::Write, Call::Opendir, Call::Readdir, Call::Stat, Call::Mkdir];
+const CALLS: [Call; 10] = [Call::Open, Call::Read, Call::Write, Call::Opendir, Call::Readdir, Call::Stat, Call::Mkdir, Call::Rename, Call::Unlink, Call::Sync];
 
 fn random_plan(p: &mut Prng, baseline: &Observed, files: &[String], artifacts: &[String], entropy: u64) -> FaultPlan {
     let mut spec = ProcSpec { entropy, readdir: p.next_u64(), ..Default::default() };
